@@ -832,6 +832,9 @@ theorem refine_lorentz_dot (k0 : Az) (k1 : Lon) (k2 : Tmp) (k3 : Az) (k4 : Lon) 
   simp only [mdot, dot3, cart3, cart4]
   ring
 
+example : TanOK .theta 1 ∧ SinOK .theta 1 ∧ CanonTmp .tau 2 :=
+  ⟨ne_of_gt cos_one_pos, (sin_pos_of_pos_of_lt_pi one_pos (by linarith [two_le_pi])).ne', by show (0 : ℝ) ≤ 2; norm_num⟩
+
 /-! ### scale -/
 
 /-- interpretation through a result type declared in the operand's own system -/
